@@ -98,7 +98,7 @@ def split2 (s : String) : List String :=
 /-- `to_float(s)` (= `float(s)`): the text is one number, possibly surrounded by white space; `ValueError` otherwise -/
 def toFloat (s : String) : Py.M Num :=
   match Op.FllIO.words s.toList with
-  | [w] => (match Dec.parse w with
+  | [w] => (match parseNum w with
     | some x => .ok x
     | none => .error .value)
   | _ => .error .value
